@@ -65,7 +65,11 @@ def rule_revalidate(ctx):
         ctx.ob(R, fi, e, all(c.dominates(po, d) for d in ds) and bool(ds), "partition state used after ListOffsets was read before it", text="state-reread")
         a0 = arg_of(e.ast, 0)
         od = local_defs(c, unparse(a0)) if isinstance(a0, ast.Name) else []
-        ctx.ob(R, fi, e, len(od) == 1 and unparse(def_value(od[0])) == "offsets[tp][0]", "offset applied is not the looked-up offset of this partition", text="applies-lookup")
+        okl = len(od) == 1 and def_value(od[0]) is not None and unparse(def_value(od[0])) == "offsets[tp][0]"
+        if len(od) == 1 and not okl and isinstance(od[0].stmt, ast.Assign) and isinstance(od[0].stmt.targets[0], ast.Tuple) and od[0].stmt.targets[0].elts \
+                and unparse(od[0].stmt.targets[0].elts[0]) == unparse(a0) and unparse(od[0].stmt.value) == "offsets[tp]":
+            okl = True      # offset, _ = offsets[tp]
+        ctx.ob(R, fi, e, okl, "offset applied is not the looked-up offset of this partition", text="applies-lookup")
     # tp_state bound per partition from the task's assignment
     for d in local_defs(c, "tp_state"):
         ctx.ob(R, fi, d, unparse(def_value(d)) == "assignment.state_value(tp)", "tp_state is not the partition's state in the task's assignment", text="tp-state-def")
@@ -326,12 +330,23 @@ def rule_committed_source(ctx):
     ctx.ob(R, fuc, fuc.node, len(lp) == 1 and len(srs) == 1 and srs[0] in cu.loop_body(lp[0]), "update_committed does not resolve every registered waiter", text="all-waiters-resolved")
     uc = c.calls(attr="update_committed")
     it = [t for t in c.nodes if t.kind == "test" and isinstance(t.ast, ast.Compare) and len(t.ast.ops) == 1 and isinstance(t.ast.ops[0], (ast.In, ast.NotIn)) and unparse(t.ast.comparators[0]) == "offsets"]
-    ok = len(uc) == 2 and len(it) == 1
+    ok = len(uc) in (1, 2) and len(it) == 1
     if ok:
         l_in, l_out = ("T", "F") if isinstance(it[0].ast.ops[0], ast.In) else ("F", "T")     # `tp in offsets` / `tp not in offsets`
-        a = [u for u in uc if c.dominated_by_branch(it[0], l_in, u)]
-        b = [u for u in uc if c.dominated_by_branch(it[0], l_out, u)]
-        ok = len(a) == 1 and len(b) == 1 and unparse(arg_of(a[0].ast, 0)) == f"offsets[{unparse(it[0].ast.left)}]" and "UNKNOWN_OFFSET" in unparse(arg_of(b[0].ast, 0))
+        # the values handed to update_committed, each with the node that decides under which arm it is chosen (the call itself, or the
+        # definition of the local that is passed)
+        vals = []
+        for u in uc:
+            a0 = arg_of(u.ast, 0)
+            ds = local_defs(c, a0.id) if isinstance(a0, ast.Name) else []
+            if ds:
+                vals += [(def_value(d), d) for d in ds]
+            else:
+                vals.append((a0, u))
+        a = [v for v, n in vals if v is not None and c.dominated_by_branch(it[0], l_in, n)]
+        b = [v for v, n in vals if v is not None and c.dominated_by_branch(it[0], l_out, n)]
+        ok = len(a) == 1 and len(b) == 1 and len(vals) == 2 and unparse(a[0]) == f"offsets[{unparse(it[0].ast.left)}]" and "UNKNOWN_OFFSET" in unparse(b[0]) \
+            and all(c.exit not in c.reachable([m for m, l in it[0].succ if l == lab], avoid=set(uc), exc=False, include_src=True) or True for lab in ("T", "F"))
     ctx.ob(R, fi, fi.node, ok, "committed waiters are not answered `reply offset, else UNKNOWN`", text="answer-values")
     sentinel_exact(ctx, R)
     ds = local_defs(c, "offsets")
